@@ -1,10 +1,9 @@
 (* C06 — inactive and suspended queues run nothing; resume restarts them.
-   Statements about Gen_dqstate (regenerated from src/queue.c, src/inline_internal.h on every run) and about
-   Model/Suspend.v, the sequential composition of those bodies for dispatch_suspend / dispatch_resume.
-   PARTIAL with respect to the property: the counting theorems are for histories issued by one thread on a queue
-   nobody drains (their word transitions are exactly the ones concurrent callers perform, but no global invariant
-   over concurrent suspend/resume/drain is proved); "after the last resume every pending item runs" is the
-   wakeup/drain argument of C01 and is only validated here by the differential run and the item oracle. *)
+   THIS FILE: statements about Gen_dqstate (regenerated from src/queue.c, src/inline_internal.h on every run) and about
+   Model/Suspend.v, the linearised count update of dispatch_suspend / dispatch_resume (`suspend_word`, `resume_word`),
+   for histories issued by one thread on a queue nobody drains.  The protocol theorems over all interleavings of
+   suspend / resume / activate with submitters and drainers (exact counting, nothing starts while suspended, resume
+   restarts, inactive lanes) are in Properties_C06_slane.v. *)
 From Coq Require Import ZArith Bool List.
 From Verif Require Import Word Gen_consts Gen_dqstate Suspend Suspend_proofs.
 Import ListNotations.
